@@ -87,7 +87,7 @@ mod sp {
         match &f.body {
             FrameBody::Open(_) => "open".into(),
             FrameBody::Begin(_) => format!("begin@{}", f.channel),
-            FrameBody::Attach(a) => format!("attach:{}:h{}", a.name, a.handle.0),
+            FrameBody::Attach(a) => format!("attach:{}:h{}{}", a.name, a.handle.0, match a.unsettled.as_ref().map(|m| m.keys().map(|k| format!("{}", k.first().copied().unwrap_or(0))).collect::<Vec<_>>()).unwrap_or_default() { v if v.is_empty() => String::new(), v => format!(":unsettled+{}+", v.join("+")) }),
             FrameBody::Flow(fl) => format!("flow:h{:?}:dc{:?}:credit{:?}:nii{:?}:drain{}:echo{}", fl.handle.as_ref().map(|h| h.0), fl.delivery_count, fl.link_credit, fl.next_incoming_id, fl.drain, fl.echo),
             FrameBody::Transfer { performative: t, payload } => format!("transfer:h{}:id{:?}:settled{:?}:more{}:len{}:tail{}", t.handle.0, t.delivery_id, t.settled, t.more, payload.len(), payload.last().copied().unwrap_or(0)),
             FrameBody::Disposition(d) => format!("disposition:{:?}:{}-{:?}:settled{}:{}", d.role, d.first, d.last, d.settled, d.state.as_ref().map(|s| format!("{:?}", s).split(|c: char| !c.is_alphanumeric()).next().unwrap_or("").to_string()).unwrap_or_else(|| "none".into())),
@@ -2165,6 +2165,77 @@ fn main() {
                                 }
                                 Err(e) => format!("{{\"client\":\"{}\",\"intact\":false,\"received\":0,\"first_bad\":0,\"extra\":false,\"send_errors\":0,\"recv_error\":\"\"}}", e),
                             }
+                        }
+                        // abort_then_next <second>: the peer (sender) starts a two-frame delivery, aborts it (aborted=true; with
+                        //   <second>=1 the abort frame also keeps more=true) and then sends a complete delivery "hello". The
+                        //   client's recv must return "hello". With <second>=1 the link settles second: the client accepts, the
+                        //   peer settles, the client detaches and resumes -- the resuming attach must list nothing as unsettled.
+                        "abort_then_next" => {
+                            use fe2o3_amqp_types::definitions::{ReceiverSettleMode, Role};
+                            use fe2o3_amqp_types::messaging::{Accepted, DeliveryState};
+                            use fe2o3_amqp_types::performatives::{Disposition, Transfer};
+                            use fe2o3_amqp_types::primitives::Binary;
+                            let second = arg.first().copied().unwrap_or(0) == 1;
+                            fn xfer(ch: u16, handle: defs::Handle, id: Option<u32>, tag: Option<u8>, more: bool, aborted: bool, body: &[u8]) -> Frame {
+                                let performative = Transfer { handle, delivery_id: id, delivery_tag: tag.map(|t| Binary::from(vec![t])), message_format: id.map(|_| 0), settled: id.map(|_| false), more, rcv_settle_mode: None, state: None, resume: false, aborted, batchable: false };
+                                Frame::new(ch, FrameBody::Transfer { performative, payload: Bytes::from(body.to_vec()) })
+                            }
+                            let mut sent = false;
+                            let peer = tokio::spawn(sp::run(peer_io, sp::PeerCfg::default(), move |f: &Frame, _log: &[String]| {
+                                let mut act = sp::Act::default();
+                                match &f.body {
+                                    FrameBody::Flow(fl) => {
+                                        if let (Some(h), false) = (fl.handle.clone(), sent) {
+                                            sent = true;
+                                            act.replies.push(xfer(f.channel, h.clone(), Some(0), Some(7), true, false, &[0x00, 0x53, 0x77, 0xa1, 0x0a, b'p', b'a', b'r']));
+                                            act.replies.push(xfer(f.channel, h.clone(), None, None, second, true, &[]));
+                                            act.replies.push(xfer(f.channel, h, Some(1), Some(9), false, false, &[0x00, 0x53, 0x77, 0xa1, 0x05, b'h', b'e', b'l', b'l', b'o']));
+                                        }
+                                    }
+                                    FrameBody::Disposition(d) if matches!(d.role, Role::Receiver) && !d.settled => {
+                                        act.replies.push(Frame::new(f.channel, FrameBody::Disposition(Disposition { role: Role::Sender, first: d.first, last: d.last, settled: true, state: Some(DeliveryState::Accepted(Accepted {})), batchable: false })));
+                                    }
+                                    _ => {}
+                                }
+                                act
+                            }));
+                            let client = tokio::time::timeout(Duration::from_secs(8), async {
+                                let mut conn = fe2o3_amqp::Connection::builder().container_id("client").open_with_stream(client_io).await.map_err(|_| "open_failed".to_string())?;
+                                let mut session = fe2o3_amqp::Session::begin(&mut conn).await.map_err(|_| "begin_failed".to_string())?;
+                                let mut b = fe2o3_amqp::Receiver::builder().name("r-1").source("q1");
+                                if second {
+                                    b = b.receiver_settle_mode(ReceiverSettleMode::Second);
+                                }
+                                let mut receiver = b.attach(&mut session).await.map_err(|_| "attach_failed".to_string())?;
+                                let got = match tokio::time::timeout(Duration::from_secs(2), receiver.recv::<String>()).await {
+                                    Err(_) => "recv_hang".to_string(),
+                                    Ok(Err(e)) => format!("recv_err:{:?}", e).chars().take(60).collect(),
+                                    Ok(Ok(d)) => {
+                                        let body = d.body().clone();
+                                        let _ = tokio::time::timeout(Duration::from_secs(1), receiver.accept(&d)).await;
+                                        body
+                                    }
+                                };
+                                tokio::time::sleep(Duration::from_millis(300)).await;
+                                if second {
+                                    if let Ok(Ok(detached)) = tokio::time::timeout(Duration::from_secs(2), receiver.detach()).await {
+                                        let _ = tokio::time::timeout(Duration::from_secs(2), detached.resume()).await;
+                                    }
+                                } else {
+                                    let _ = tokio::time::timeout(Duration::from_secs(1), receiver.close()).await;
+                                }
+                                let _ = tokio::time::timeout(Duration::from_secs(1), session.end()).await;
+                                let _ = tokio::time::timeout(Duration::from_secs(1), conn.close()).await;
+                                Ok::<_, String>(got)
+                            })
+                            .await
+                            .unwrap_or(Err("hang".to_string()));
+                            let log = tokio::time::timeout(Duration::from_secs(2), peer).await.ok().and_then(|r| r.ok()).unwrap_or_default();
+                            let attaches: Vec<&String> = log.iter().filter(|l| l.starts_with("attach:")).collect();
+                            // tag 9 is the delivery that was accepted and settled (tag 7, the aborted one, is not judged here)
+                            let left: u32 = attaches.iter().skip(1).filter(|l| l.contains(":unsettled") && l.contains("+9+")).count() as u32;
+                            let got = client.unwrap_or_else(|e| e);
+                            format!("{{\"client\":{:?},\"next_delivery_intact\":{},\"resumed\":{},\"left_unsettled\":{},\"log\":{}}}", got, got == "hello", attaches.len() > 1, left, sp::json_list(&log))
                         }
                         // link_split <pieces>: the peer's attach carries max-message-size 16; the client sends ONE message
                         //   whose payload is cut into <pieces> transfers by the link. All frames of the delivery must carry
